@@ -9,5 +9,5 @@ trap 'rm -rf "$D"' EXIT
 rsync -a --exclude .git /repo/ "$D/"
 (cd "$D" && patch -p1 -s < "$P") || { echo "patch failed"; exit 3; }
 cd /verif
-VERIF_REPO="$D" VERIF_DIR=/verif VERIF_EVIDENCE_DIR="$D/evidence" VERIF_REPLAY_DIR="${VERIF_REPLAY_DIR:-$D/replays}" ./bin/vcheck run -prop "$PROP" -budget "$BUD" 2>&1 | tail -8
+VERIF_REPO="$D" VERIF_EVIDENCE_DIR="$D/evidence" VERIF_REPLAY_DIR="${VERIF_REPLAY_DIR:-$D/replays}" ./bin/vcheck run -prop "$PROP" -budget "$BUD" 2>&1 | tail -8
 exit ${PIPESTATUS[0]}
